@@ -24,7 +24,7 @@ RULE = ('cases = match sequence of length 0..8 (seeded data sets, any mix of FF0
         'wrapper} x final status {success from the real SCP; failure / cancel / warning from a '
         'scripted SCP} x schedule {uniform; user thread far ahead of its provider thread; '
         'stalls}; non-trivial = >= 2 matches; distinct = distinct scheduler signatures'
-        '; hot family (concurrent query users, pre-emption in the encoders); 25 % with a file-backed C-STORE before the query; 30 % with a handler that re-yields one data set object')
+        '; hot family (concurrent query users, pre-emption in the encoders); 25 % with a file-backed C-STORE before the query; 30 % with a handler that re-yields one data set object; pipelined family: a second query sent while the responses to the first stream in')
 ASSUMPTIONS = ['data sets compared by their implicit-VR-LE re-encoding (pydicom trusted for data '
                'sets)', 'stalls capped below the library\'s own timeouts']
 
@@ -57,7 +57,17 @@ def cases(tier, seed):   # noqa: F811
                    variant=rnd.choice(['patient', 'study', 'mwl']), delay=0, final='real',
                    sched='uniform', align=False, others=rnd.choice([2, 3]), fine=True, hot=True,
                    seed=seed * 100019 + i)
-    # (the bulk comes last so that a wall-clock budget cut never drops the family above)
+    # pipelined: the user makes a second query on the same association while the responses to
+    # the first are still streaming in (request travelling against the stream of responses,
+    # multi-fragment on both sides): both queries get exactly what was produced, in order
+    rp = random.Random('c16p/%d' % seed)
+    for i in range(160 if tier == 'quick' else 6000):
+        yield dict(n=rp.choice([2, 3, 5, 8]), ts=rp.choice(sorted(TSS)),
+                   smax=rp.choice([40, 64, 128, 512]), cmax=rp.choice([40, 128, 16384]),
+                   variant=rp.choice(['patient', 'study', 'mwl']), delay=0, final='real',
+                   sched=rp.choice(['uniform', 'user-ahead']), align=False, others=0, fine=False,
+                   pipelined=True, seed=seed * 100057 + i)
+    # (the bulk comes last so that a wall-clock budget cut never drops the families above)
     for c in _cases_base(tier, seed):
         yield c
 
@@ -205,8 +215,20 @@ def run_case(case):
                             inst.SOPInstanceUID = '1.2.826.0.1.16.%d' % (case['seed'] % 100000)
                             inst.PatientName = 'STORED' + 'x' * (case['seed'] % 300)
                             out['store_status'] = int(assoc.get_scu(CT_STORE)(inst, 5))
-                        for d, st in assoc.get_scu(sop)(query, 7):
-                            got.append((d, st))
+                        if case.get('pipelined'):
+                            g1 = assoc.get_scu(sop)(query, 7)
+                            got.append(next(g1))            # first response of query 1 is in
+                            g2 = assoc.get_scu(sop)(query, 9)
+                            # sends query 2; what it then takes from the association is the
+                            # next response to query 1 (the provider answers in order)
+                            got.append(next(g2))
+                            for d, st in g1:
+                                got.append((d, st))
+                            for d, st in g2:
+                                got2.append((d, st))
+                        else:
+                            for d, st in assoc.get_scu(sop)(query, 7):
+                                got.append((d, st))
                         if again:
                             # the association then sits idle for longer than the user's
                             # time-out before the same query is made once more
@@ -311,6 +333,13 @@ def run_case(case):
                                                 [(_pn(d), '%04x' % s) for d, s in have]))
             if got and got[-1][1].is_pending:
                 v('iteration-ended-on-pending-status', repr(int(got[-1][1])))
+            if case.get('pipelined'):
+                have2 = [(enc(d, rc.IMPLICIT_LE) if d is not None else None, int(st))
+                         for d, st in got2]
+                if have2 != want:
+                    v('pipelined-second-query-differs',
+                      'produced %d results, received %r' % (
+                          len(want), [(_pn(d), '%04x' % s) for d, s in have2]))
             if again:
                 have2 = [(enc(d, rc.IMPLICIT_LE) if d is not None else None, int(st))
                          for d, st in got2]
@@ -320,7 +349,7 @@ def run_case(case):
                           again, len(want), [(_pn(d), '%04x' % s) for d, s in have2]))
         if seen_queries and seen_queries[0] is not None:
             qwant = enc(query, rc.IMPLICIT_LE if case['final'] == 'real' else ts)
-            if seen_queries[0] != qwant or len(seen_queries) != (2 if again else 1):
+            if seen_queries[0] != qwant or len(seen_queries) != (2 if (again or case.get('pipelined')) else 1):
                 v('query-changed-on-the-way', 'handler saw %r (x%d), sent %r' % (
                     seen_queries[0][:40], len(seen_queries), qwant[:40]))
         elif 'exc' not in out:
